@@ -70,6 +70,10 @@ def judge(c, slicer, data, result, exc, tag="slice"):
             for k, v in constructed.items():
                 setattr(slicer, k, v)
     data = np.asarray(data)
+    data_as_given = data
+    if data.dtype.kind == "f" and data.dtype.itemsize < 8:
+        # the oracle compares in double precision (the conversion is exact); the slicer gets the caller's array
+        data = data.astype(np.float64)
     cfg = _cfg(slicer)
     n = len(data)
     c.count(f"{tag}.calls[{kind}]")
@@ -79,7 +83,7 @@ def judge(c, slicer, data, result, exc, tag="slice"):
     s0.min_n_points = 0
     s0.min_n_intervals = 0
     try:
-        masks0, refs0, bounds0 = s0.slice_(data)
+        masks0, refs0, bounds0 = s0.slice_(data_as_given)
     except Exception as e:  # noqa: BLE001
         c.inconcl(f"slice_ with min_n_points=0 raised {type(e).__name__}: {e} cfg={cfg}")
         return
@@ -186,17 +190,19 @@ def judge(c, slicer, data, result, exc, tag="slice"):
     # (f) references
     ref = slicer.reference
     okr, wit = True, None
+    # (a range derived from single-precision data is computed in single precision: centre/left/right to that precision)
+    rt = max(1e-12, 4 * float(np.finfo(data_as_given.dtype).eps)) if data_as_given.dtype.kind == "f" else 1e-12
     for i, (m, r, (lo, hi)) in enumerate(zip(masks0, refs0, bounds0)):
         if callable(ref):
             with np.errstate(all="ignore"):
-                want = ref(data[m])
+                want = ref(data_as_given[m])  # (the callable sees the caller's values in the caller's dtype)
             same = (want == r) or (np.isnan(want) and np.isnan(r))
         elif isinstance(ref, str) and ref.lower() == "center":
-            same = abs(r - (lo + hi) / 2) <= 1e-12 * max(1.0, abs(hi), abs(lo))
+            same = abs(r - (lo + hi) / 2) <= rt * max(1.0, abs(hi), abs(lo))
         elif isinstance(ref, str) and ref.lower() == "left":
-            same = abs(r - lo) <= 1e-12 * max(1.0, abs(lo))
+            same = abs(r - lo) <= rt * max(1.0, abs(lo))
         elif isinstance(ref, str) and ref.lower() == "right":
-            same = abs(r - hi) <= 1e-12 * max(1.0, abs(hi))
+            same = abs(r - hi) <= rt * max(1.0, abs(hi))
         else:
             same = True
         if not same:
